@@ -1131,19 +1131,47 @@ Proof.
   destruct (InvS_side sd w HI) as [IS _]. eapply I_ok; eauto.
 Qed.
 
-Lemma join_ends_Good ios : forall w, Inv w -> (forall i o, In (i, o) ios -> obj_okP w i) ->
+Lemma join_ends_Good ios : forall w, Inv w -> (forall i o, In (i, o) ios -> rarg_okP w i) ->
   pre_join w ios = true -> Good w (join_ends w ios).
 Proof.
-  induction ios as [|[i o] ios IH]; intros w HI Ok Pre; cbn [join_ends pre_join] in *.
+  induction ios as [|[i [o|]] ios IH]; intros w HI Ok Pre; cbn [join_ends pre_join] in *.
   - now apply Good_same.
   - destruct (ptr w SIn o) as [v|] eqn:P.
     + apply andb_true_iff in Pre. destruct Pre as [P1 P2].
       destruct (InvS_side SIn w HI) as [IS _].
       apply Good_andthen.
-      * apply (good_Good SIn); auto. apply replace_good; auto. eapply I_uptr; eauto. simpl. eapply Ok. now left.
+      * apply (good_Good SIn); auto. apply replace_good; auto. eapply I_uptr; eauto. eapply Ok. now left.
       * intros w1 E I1 St. rewrite E in P2. apply IH; auto.
-        intros i' o' H. eapply stat_okP; [exact St|]. eapply Ok. right. exact H.
+        intros i' o' H. eapply rarg_ok_stat; [exact St|]. eapply Ok. right. exact H.
     + apply IH; auto. intros i' o' H. eapply Ok. right. exact H.
+  - now apply Good_same.
+Qed.
+
+Lemma disc_items_Good sd u its : forall w, Inv w -> u < nunits w -> Good w (disc_items w sd u its).
+Proof.
+  induction its as [|it t IH]; intros w HI Hu; cbn [disc_items].
+  - now apply Good_same.
+  - apply Good_andthen.
+    + assert (G : forall i, Good w (set_stream w sd u i RNone)).
+      { intro i. apply (good_Good sd); auto. apply set_stream_good; auto; [apply (InvS_side sd w HI) | exact I]. }
+      destruct it as [i|x|]; [apply G | | now apply Good_same].
+      destruct (is_real x); [|now apply Good_same].
+      destruct (index_of x (ports w SIn u)); [apply G | now apply Good_same].
+    + intros w1 _ I1 St1. apply IH; auto. destruct St1 as [A _ _ _ _]. lia.
+Qed.
+Lemma disc_side_Good sd u o w : Inv w -> u < nunits w -> Good w (disc_side w sd u o).
+Proof.
+  intros HI Hu. destruct o as [its|]; cbn [disc_side].
+  - now apply disc_items_Good.
+  - apply (good_Good sd); auto. apply set_streams_good; auto; [apply (InvS_side sd w HI) | intros a [] | apply pre_slice_nil].
+Qed.
+Lemma items_ok_P w o its : Inv w -> items_okb w o = true -> resolve_items w o = Some its ->
+  forall it, In it its -> rarg_okP w (as_inlet it).
+Proof.
+  intros HI H E it Hit. destruct o as [l|]; [|discriminate]. simpl in E. inversion E; subst. clear E.
+  apply in_map_iff in Hit. destruct Hit as (d & <- & Hd). simpl in H. rewrite forallb_forall in H. specialize (H d Hd).
+  destruct d as [i|a]; simpl; [exact I|].
+  pose proof (resolve_ok w a HI H) as R. destruct (resolve w a); simpl in *; auto.
 Qed.
 
 Lemma filter_real_ok sd w u : Inv w -> forall x, In x (filter is_real (ports w sd u)) -> obj_okP w x.
@@ -1152,9 +1180,24 @@ Proof.
   destruct (InvS_side sd w HI) as [IS _]. eapply I_ok; eauto.
 Qed.
 
+Definition rport_okP (w : world) (p : rport) : Prop := match p with RPObj x => obj_okP w x | _ => True end.
+Lemma resolve_port_ok w p : Inv w -> port_ok w p = true -> rport_okP w (resolve_port w p).
+Proof.
+  intros HI H. destruct p as [|i|a]; simpl; auto.
+  pose proof (resolve_ok w a HI H) as R. destruct (resolve w a); simpl in *; auto.
+Qed.
+Lemma explicit_port_ok w u chk p y : Inv w -> rport_okP w p -> explicit_port w u chk p = Ok y -> obj_okP w y.
+Proof.
+  intros HI Op E. destruct p as [|i|x]; simpl in E; [discriminate| |].
+  - destruct (norm_index i (length (ports w SOut u))) as [k|] eqn:Ek; [|discriminate]. inversion E; subst.
+    destruct (InvS_side SOut w HI) as [IS _]. apply (I_ok _ _ IS u). apply nth_In. eapply norm_index_lt; eauto.
+  - destruct (is_real x); [|discriminate]. destruct (ptr w chk x) as [v|]; [|discriminate].
+    destruct (v =? u); inversion E; subst. exact Op.
+Qed.
+
 Definition proven (o : op) : bool :=
   match o with
-  | OEmpty _ _ | OReplaceWith _ None | ONewUnit _ _ _ _ _ _ => false
+  | OEmpty _ _ | OReplaceWith _ None | ONewUnit _ _ _ _ _ _ | OSetSliceStep _ _ _ _ _ _ => false
   | _ => true
   end.
 
@@ -1203,46 +1246,68 @@ Proof.
     + intros w1 _ I1 _. apply (good_Good SIn); auto. apply disconnect_side_good. apply (InvS_side SIn w1 I1).
   - (* OPipeUU *) apply (good_Good SIn); auto. apply set_streams_good; auto; [apply (InvS_side SIn w HI) | apply robjs_ok; exact HI].
   - (* OUnitDisconnect *) unfold unit_disconnect.
-    apply Good_andthen.
-    { apply (good_Good SIn); auto. apply set_streams_good; auto; [apply (InvS_side SIn w HI) | intros a [] | apply pre_slice_nil]. }
-    intros w1 E1 I1 St1. apply Good_andthen.
-    { apply (good_Good SOut); auto. apply set_streams_good; auto;
-        [apply (InvS_side SOut w1 I1) | destruct St1 as [A _ _ _ _]; lia | intros a [] | apply pre_slice_nil]. }
+    set (ri := resolve_items w pi) in *. set (ro := resolve_items w po) in *.
+    apply Good_andthen; [now apply disc_side_Good|].
+    intros w1 E1 I1 St1. apply Good_andthen; [apply disc_side_Good; auto; destruct St1 as [A _ _ _ _]; lia|].
     intros w2 E2 I2 St2. destruct join; [|now apply Good_same].
-    rewrite E1, E2 in Pre.
-    destruct (negb (length (filter is_real (ports w SIn u)) =? length (filter is_real (ports w1 SOut u)))) eqn:Ln;
-      [now apply Good_same|]. simpl in Pre.
+    cbv zeta in Pre. rewrite E1, E2 in Pre.
+    destruct (negb (join_len_ok w w1 u ri ro)) eqn:Ln; [now apply Good_same|]. simpl in Pre.
     apply join_ends_Good; auto.
-    intros i o Hio. apply in_combine_l in Hio. apply (stat_okP w w2); [eapply stat_trans; [exact St1 | exact St2]|].
-    eapply filter_real_ok; eauto.
+    intros i o Hio. unfold join_list in Hio. apply in_combine_l in Hio.
+    apply (rarg_ok_stat w w2); [eapply stat_trans; [exact St1 | exact St2]|].
+    destruct ri as [its|] eqn:Eri.
+    + apply in_map_iff in Hio. destruct Hio as (it & <- & Hit). eapply (items_ok_P w pi its); eauto.
+    + apply in_map_iff in Hio. destruct Hio as (x & <- & Hx). simpl. eapply filter_real_ok; eauto.
   - (* OUnitInsert *) unfold unit_insert.
     assert (Ra0 : rarg_okP w (resolve w a)) by (apply resolve_ok; assumption).
     destruct (resolve w a) as [s| |] eqn:Ra; try now apply Good_same.
-    apply andb_true_iff in Pre. destruct Pre as [Pre Q5].
-    apply andb_true_iff in Pre. destruct Pre as [Pre Q3].
-    apply andb_true_iff in Pre. destruct Pre as [Q1 Q2].
-    rewrite Q1, Q2. cbn [negb].
-    destruct (ptr w SIn s) as [v|] eqn:Pi; [|discriminate].
-    destruct (hd_arg (ports w SOut u)) as [y|] eqn:Hy; [|discriminate].
-    apply andb_true_iff in Q5. destruct Q5 as [P1 P2].
-    assert (Oy : obj_okP w y).
-    { destruct (ports w SOut u) as [|y' t'] eqn:E; [discriminate|]. inversion Hy; subst.
-      destruct (InvS_side SOut w HI) as [IS _]. apply (I_ok _ _ IS u). rewrite E. now left. }
+    apply andb_true_iff in Pre. destruct Pre as [Po Pi].
+    assert (Oro : rport_okP w (resolve_port w pout)) by (apply resolve_port_ok; assumption).
+    assert (Ori : rport_okP w (resolve_port w pin)) by (apply resolve_port_ok; assumption).
+    set (ro := resolve_port w pout) in *. set (ri := resolve_port w pin) in *.
+    unfold pre_insert_out in Po. destruct (ptr w SIn s) as [v|] eqn:Psi; [|discriminate].
+    assert (Vlt : v < nunits w) by (destruct (InvS_side SIn w HI) as [IS _]; eapply I_uptr; eauto).
+    assert (Add : match ro with RPNone => negb (pfixed w SOut u) | _ => false end = false).
+    { destruct ro; auto. apply andb_true_iff in Po. destruct Po as [Po _]. apply andb_true_iff in Po.
+      destruct Po as [Q1 _]. now rewrite Q1. }
+    rewrite Add.
     apply Good_andthen.
-    + apply (good_Good SIn); auto. apply replace_good; auto; [apply (InvS_side SIn w HI)|].
-      destruct (InvS_side SIn w HI) as [IS _]. eapply I_uptr; eauto.
-    + intros w1 E1 I1 St1. rewrite E1 in P2.
-      pose proof (St_psize _ _ St1 SIn u) as S4. pose proof (St_nunits _ _ St1) as S1.
-      destruct (pfixed w1 SIn u) eqn:Fx1; cbn [orb].
-      * rewrite <- (St_pfixed _ _ St1 SIn u), Fx1 in Q3. cbn [negb orb] in Q3. rewrite S4, Q3.
-        destruct (ptr w SOut s) as [t|] eqn:Po; [|discriminate].
-        destruct (hd_arg (ports w1 SIn u)) as [z|] eqn:Hz; [|now apply Good_same].
-        apply (good_Good SOut); auto. apply replace_good; auto; [apply (InvS_side SOut w1 I1) | |].
-        -- destruct (InvS_side SOut w HI) as [IS _]. rewrite S1. eapply I_uptr; eauto.
-        -- destruct (InvS_side SIn w1 I1) as [IS _]. apply (I_ok _ _ IS u).
+    + unfold insert_out. rewrite Psi.
+      assert (EX : forall y, explicit_port w u SOut ro = Ok y -> pre_replace w SIn v (RObj s) (RObj y) = true ->
+                   Good w (replace w SIn v (RObj s) (RObj y))).
+      { intros y Ex Pr'. apply (good_Good SIn); auto. apply replace_good; auto; [apply (InvS_side SIn w HI)|].
+        exact (explicit_port_ok w u SOut ro y HI Oro Ex). }
+      destruct ro as [|i|x] eqn:Ero.
+      * apply andb_true_iff in Po. destruct Po as [Po P3]. apply andb_true_iff in Po. destruct Po as [Q1 Q2].
+        rewrite Q1, Q2. destruct (hd_arg (ports w SOut u)) as [y|] eqn:Hy; [|discriminate].
+        apply (good_Good SIn); auto. apply replace_good; auto; [apply (InvS_side SIn w HI)|].
+        destruct (ports w SOut u) as [|y' t'] eqn:E; [discriminate|]. simpl in Hy. inversion Hy; subst.
+        destruct (InvS_side SOut w HI) as [IS _]. apply (I_ok _ _ IS u). rewrite E. now left.
+      * destruct (explicit_port w u SOut (RPIndex i)) as [y|e] eqn:Ex; [|discriminate]. now apply EX.
+      * destruct (explicit_port w u SOut (RPObj x)) as [y|e] eqn:Ex; [|discriminate]. now apply EX.
+    + intros w1 E1 I1 St1. rewrite E1 in Pi.
+      pose proof (St_nunits _ _ St1) as S1.
+      assert (SRC : forall t z, ptr w SOut s = Some t -> obj_okP w1 z -> pre_replace w1 SOut t (RObj s) (RObj z) = true ->
+                    Good w1 (replace w1 SOut t (RObj s) (RObj z))).
+      { intros t z Pt Oz Pr'. apply (good_Good SOut); auto. apply replace_good; auto; [apply (InvS_side SOut w1 I1)|].
+        destruct (InvS_side SOut w HI) as [IS _]. rewrite S1. eapply I_uptr; eauto. }
+      assert (Ori1 : rport_okP w1 ri) by (destruct ri; simpl in *; auto; eapply stat_okP; eauto).
+      unfold insert_in, pre_insert_in in *. destruct ri as [|i|x] eqn:Eri.
+      * rewrite orb_false_r. destruct (pfixed w1 SIn u) eqn:Fx1.
+        -- apply andb_true_iff in Pi. destruct Pi as [Q3 Pi]. rewrite Q3.
+           destruct (ptr w SOut s) as [t|] eqn:Pt; [|discriminate].
+           destruct (hd_arg (ports w1 SIn u)) as [z|] eqn:Hz; [|now apply Good_same].
+           apply (SRC t z eq_refl); auto.
+           destruct (InvS_side SIn w1 I1) as [IS _]. apply (I_ok _ _ IS u).
            destruct (ports w1 SIn u) as [|z' t'] eqn:E; [discriminate|]. simpl in Hz. inversion Hz. now left.
-      * apply (good_Good SIn); auto. apply insert_stream_good; auto; [apply (InvS_side SIn w1 I1) | lia |].
-        eapply (rarg_ok_stat w w1 (RObj s)); eauto.
+        -- apply (good_Good SIn); auto. apply insert_stream_good; auto; [apply (InvS_side SIn w1 I1) | lia |].
+           eapply (rarg_ok_stat w w1 (RObj s)); eauto.
+      * destruct (explicit_port w1 u SIn (RPIndex i)) as [z|e] eqn:Ex; [|discriminate].
+        destruct (ptr w SOut s) as [t|] eqn:Pt; [|discriminate].
+        apply (SRC t z eq_refl); auto. eapply explicit_port_ok; eauto.
+      * destruct (explicit_port w1 u SIn (RPObj x)) as [z|e] eqn:Ex; [|discriminate].
+        destruct (ptr w SOut s) as [t|] eqn:Pt; [|discriminate].
+        apply (SRC t z eq_refl); auto. eapply explicit_port_ok; eauto.
   - (* OTakePlaceOf *) now apply take_place_Good.
   - (* OReplaceWith (Some v) *) destruct v as [v|]; [|discriminate]. cbn [replace_with].
     apply take_place_Good; auto. apply unit_ok_lt; assumption.
@@ -1974,12 +2039,211 @@ Proof.
   cbn. split; [|exact I2]. eapply frame_InvS; [exact Fr2 | exact I1].
 Qed.
 
+(* ================================================================ extended slices L[lo:hi:st] = xs *)
+Lemma nth_upd_other_obj (l : list obj) i j y d : i <> j -> nth j (upd l i y) d = nth j l d.
+Proof.
+  revert i j. induction l as [|a l IH]; intros i j N; simpl; [reflexivity|].
+  destruct i, j; simpl; try reflexivity; [congruence | apply IH; congruence].
+Qed.
+Lemma In_upd_iff (l : list obj) i y d z : NoDup l -> i < length l ->
+  (In z (upd l i y) <-> z = y \/ (In z l /\ z <> nth i l d)).
+Proof.
+  intros ND Li. destruct (nth_split' l i d Li) as (l1 & l2 & EL & L1).
+  remember (nth i l d) as o eqn:Ho. clear Ho. subst l. rewrite <- L1, upd_app.
+  pose proof (NoDup_remove_2 _ _ _ ND) as NI.
+  rewrite !in_app_iff. simpl. rewrite in_app_iff in NI. split.
+  - intros [H|[H|H]]; [right; split; [tauto | intro; subst; tauto] | left; now subst | right; split; [tauto | intro; subst; tauto]].
+  - intros [->|[[H|[H|H]] N]]; [tauto | tauto | congruence | tauto].
+Qed.
+Lemma upd_length' (l : list obj) i y : length (upd l i y) = length l.
+Proof. revert i. induction l; intro i; simpl; [reflexivity|]. destruct i; simpl; [reflexivity | now rewrite IHl]. Qed.
+Lemma NoDup_upd (l : list obj) i y : NoDup l -> ~ In y l -> NoDup (upd l i y).
+Proof.
+  intros ND NI. destruct (Nat.lt_ge_cases i (length l)) as [Li|Li]; [|now rewrite upd_out].
+  destruct (nth_split' l i y Li) as (l1 & l2 & EL & L1). rewrite EL in ND |- *. rewrite <- L1, upd_app.
+  eapply NoDup_swap; [exact ND|]. intro H. apply NI. rewrite EL. apply in_app_or in H. apply in_or_app. simpl. tauto.
+Qed.
+
+Lemma assign_spec idxs : forall ys l, NoDup idxs -> (forall i, In i idxs -> i < length l) ->
+  length ys = length idxs -> NoDup l -> NoDup ys -> (forall y, In y ys -> ~ In y l) ->
+  NoDup (assign l idxs ys) /\ length (assign l idxs ys) = length l /\
+  (forall z, In z (assign l idxs ys) <-> (In z l /\ ~ In z (map (fun i => nth i l (M_ 0)) idxs)) \/ In z ys).
+Proof.
+  unfold assign. induction idxs as [|i idxs IH]; intros ys l NDi Bi Ln NDl NDy Dis.
+  - destruct ys; [|discriminate]. simpl. split; [exact NDl|]. split; [reflexivity|]. intro z. tauto.
+  - destruct ys as [|y ys]; [discriminate|]. cbn [combine fold_left fst snd].
+    inversion NDi as [|? ? NIi NDi']; subst. inversion NDy as [|? ? NIy NDy']; subst.
+    assert (Li : i < length l) by (apply Bi; now left).
+    assert (ND1 : NoDup (upd l i y)) by (apply NoDup_upd; [exact NDl | apply Dis; now left]).
+    destruct (IH ys (upd l i y) NDi') as (A & B & C); auto.
+    + intros j Hj. rewrite upd_length'. apply Bi. now right.
+    + intros y' Hy' HI. apply (In_upd_iff l i y (M_ 0) y' NDl Li) in HI. destruct HI as [->|[HI _]]; [contradiction|].
+      apply (Dis y'); [now right | exact HI].
+    + split; [exact A|]. split; [rewrite B; apply upd_length'|].
+      intro z. rewrite C. rewrite (In_upd_iff l i y (M_ 0) z NDl Li).
+      assert (EM : map (fun j => nth j (upd l i y) (M_ 0)) idxs = map (fun j => nth j l (M_ 0)) idxs).
+      { apply map_ext_in. intros j Hj. apply nth_upd_other_obj. intro; subst; contradiction. }
+      rewrite EM. simpl.
+      assert (Yn : ~ In y (map (fun j => nth j l (M_ 0)) idxs)).
+      { intro H. apply in_map_iff in H. destruct H as (j & E & Hj). apply (Dis y); [now left|].
+        rewrite <- E. apply nth_In. apply Bi. now right. }
+      split.
+      * intros [[[->|[HI N]] NM]|H]; [right; now left | left; split; [exact HI | intros [Q|Q]; [congruence | contradiction]] | right; now right].
+      * intros [[HI NM]|[->|H]]; [left; split; [right; split; [exact HI | intro Q; apply NM; left; congruence] | intro Q; apply NM; now right] | left; split; [now left | exact Yn] | right; exact H].
+Qed.
+
+Lemma zrange_up fuel : forall cur stop st, (0 < st)%Z -> (0 <= cur)%Z ->
+  NoDup (zrange fuel cur stop st) /\
+  forall i, In i (zrange fuel cur stop st) -> Z.to_nat cur <= i /\ (Z.of_nat i < stop)%Z.
+Proof.
+  induction fuel as [|f IH]; intros cur stop st Hs Hc; simpl; [split; [constructor | intros i []]|].
+  assert (E : (0 <? st)%Z = true) by now apply Z.ltb_lt. rewrite E.
+  destruct (cur <? stop)%Z eqn:C; [|split; [constructor | intros i []]]. apply Z.ltb_lt in C.
+  destruct (IH (cur + st)%Z stop st Hs ltac:(lia)) as [ND B]. split.
+  - constructor; [|exact ND]. intro H. apply B in H. lia.
+  - intros i [<-|H]; [split; [lia | rewrite Z2Nat.id; lia]|]. apply B in H. lia.
+Qed.
+Lemma zrange_down fuel : forall cur stop st, (st < 0)%Z -> (-1 <= stop)%Z ->
+  NoDup (zrange fuel cur stop st) /\
+  forall i, In i (zrange fuel cur stop st) -> (Z.of_nat i <= cur)%Z /\ (stop < Z.of_nat i)%Z.
+Proof.
+  induction fuel as [|f IH]; intros cur stop st Hs Hc; simpl; [split; [constructor | intros i []]|].
+  assert (E : (0 <? st)%Z = false) by (apply Z.ltb_ge; lia). rewrite E.
+  destruct (stop <? cur)%Z eqn:C; [|split; [constructor | intros i []]]. apply Z.ltb_lt in C.
+  destruct (IH (cur + st)%Z stop st Hs Hc) as [ND B]. split.
+  - constructor; [|exact ND]. intro H. apply B in H. rewrite Z2Nat.id in H by lia. lia.
+  - intros i [<-|H]; [rewrite Z2Nat.id by lia; lia|]. apply B in H. lia.
+Qed.
+Lemma ext_indices_ok lo hi st n : st <> 0%Z ->
+  NoDup (ext_indices lo hi st n) /\ forall i, In i (ext_indices lo hi st n) -> i < n.
+Proof.
+  intro Nz. unfold ext_indices. destruct (0 <? st)%Z eqn:E.
+  - apply Z.ltb_lt in E. destruct (zrange_up n (Z.of_nat (clampZ lo n 0)) (Z.of_nat (clampZ hi n n)) st E ltac:(lia)) as [ND B].
+    split; [exact ND|]. intros i H. apply B in H.
+    assert (clampZ hi n n <= n).
+    { destruct hi as [h|]; simpl; [|lia]. destruct (h <? 0)%Z eqn:Q; [apply Z.ltb_lt in Q|]; lia. }
+    lia.
+  - apply Z.ltb_ge in E.
+    set (cl := fun (i : option Z) (dflt : Z) => match i with
+               | None => dflt
+               | Some i => if (i <? 0)%Z then Z.max (-1) (i + Z.of_nat n) else Z.min i (Z.of_nat n - 1) end).
+    assert (Cs : (-1 <= cl hi (-1))%Z).
+    { unfold cl. destruct hi as [h|]; [|lia]. destruct (h <? 0)%Z eqn:Q; [lia|]. apply Z.ltb_ge in Q. lia. }
+    assert (Cc : (cl lo (Z.of_nat n - 1) <= Z.of_nat n - 1)%Z).
+    { unfold cl. destruct lo as [h|]; [|lia]. destruct (h <? 0)%Z eqn:Q; [apply Z.ltb_lt in Q|]; lia. }
+    destruct (zrange_down n (cl lo (Z.of_nat n - 1)%Z) (cl hi (-1)%Z) st ltac:(lia) Cs) as [ND B].
+    split; [exact ND|]. intros i H. apply B in H. lia.
+Qed.
+
+Section SideX.
+Variable sd : side.
+
+Lemma rewrite_J u w olds l' ys :
+  InvS sd w -> u < nunits w ->
+  (forall y, In y olds -> In y (ports w sd u)) -> NoDup l' ->
+  (forall y, In y l' -> (In y (ports w sd u) /\ ~ In y olds) \/ In y ys) ->
+  (forall y, In y (ports w sd u) -> ~ In y olds -> In y l') ->
+  (forall y, In y ys -> In y l' /\ obj_okP w y) ->
+  J sd u ys (upd_ports (undock_all w sd olds) sd u l').
+Proof.
+  intros [A B C D E F G H] Hu So NDl' Src Kept Ysl.
+  destruct (undock_all_misc sd olds w) as (Po & St & Fr & _).
+  assert (Oth : forall v y, v <> u -> In y (ports w sd v) -> mem y olds = false).
+  { intros v y N HI. apply mem_false. intro Ho. apply So in Ho. apply A in HI. apply A in Ho. congruence. }
+  constructor.
+  - intros v y. rewrite ports_upd_ports.
+    change (ptr (upd_ports (undock_all w sd olds) sd u l') sd y) with (ptr (undock_all w sd olds) sd y).
+    rewrite undock_all_ptr. destruct (v =? u) eqn:Ev.
+    + apply Nat.eqb_eq in Ev. subst v. intro HI.
+      destruct (in_dec (fun a b => ltac:(destruct (obj_eqb a b) eqn:Q; [left; now apply obj_eqb_eq | right; now apply obj_eqb_neq])) y ys) as [I|NI]; [now right|].
+      left. destruct (Src y HI) as [[Hl No]|Hy]; [|contradiction].
+      apply mem_false in No. rewrite No. now apply A.
+    + apply Nat.eqb_neq in Ev. rewrite Po. intro HI. left. rewrite (Oth v y Ev HI). now apply A.
+  - intros v n. change (ptr (upd_ports (undock_all w sd olds) sd u l') sd (S_ n)) with (ptr (undock_all w sd olds) sd (S_ n)).
+    rewrite undock_all_ptr, ports_upd_ports. destruct (mem (S_ n) olds) eqn:Em; [discriminate|].
+    intro Q. apply B in Q. destruct (v =? u) eqn:Ev; [|now rewrite Po].
+    apply Nat.eqb_eq in Ev. subst v. apply mem_false in Em. now apply Kept.
+  - intro v. rewrite ports_upd_ports. destruct (v =? u); [exact NDl' | rewrite Po; apply C].
+  - intros v N. rewrite ports_upd_ports_neq by assumption. rewrite Po. destruct St as [_ _ _ S4 S5].
+    cbn [psize pfixed upd_ports]. rewrite S4, S5. apply D.
+  - intros v y. rewrite ports_upd_ports. intro HI. change (obj_okP (undock_all w sd olds) y). eapply stat_okP; [exact St|].
+    destruct (v =? u).
+    + destruct (Src y HI) as [[Hl _]|Hy]; [eapply E; eauto | apply Ysl; exact Hy].
+    + rewrite Po in HI. eapply E; eauto.
+  - intros n L. change (ptr (undock_all w sd olds) sd (S_ n) = None). rewrite undock_all_ptr.
+    destruct (mem (S_ n) olds); [reflexivity|]. apply F. destruct St as [_ S2 _ _ _]. simpl in L. rewrite S2 in L. exact L.
+  - intros v L. rewrite ports_upd_ports. destruct St as [S1 _ _ _ _]. simpl in L. rewrite S1 in L.
+    destruct (v =? u) eqn:Ev; [apply Nat.eqb_eq in Ev; lia|]. rewrite Po. now apply G.
+  - intros y v. change (ptr (undock_all w sd olds) sd y = Some v -> v < nunits (undock_all w sd olds)).
+    rewrite undock_all_ptr. destruct St as [S1 _ _ _ _]. rewrite S1. destruct (mem y olds); [discriminate | apply H].
+  - intros y HI. rewrite ports_upd_ports_eq. apply Ysl. exact HI.
+Qed.
+
+Lemma set_streams_step_good u w lo hi st xs :
+  InvS sd w -> u < nunits w -> (forall a, In a xs -> rarg_okP w a) ->
+  pre_slice_step w sd u lo hi st xs = true -> good sd w (set_streams_step w sd u lo hi st xs).
+Proof.
+  intros HI Hu Ok Pre. unfold set_streams_step. unfold pre_slice_step in Pre.
+  destruct (st =? 1)%Z; [now apply set_streams_good|].
+  pose proof (as_streams_spec sd u xs w HI Hu Ok) as S.
+  destruct (as_streams w sd u xs) as [w1 [ys|e]]; simpl in S.
+  2:{ destruct S as (I1 & St & Fr & _). unfold fail, good. simpl. auto. }
+  destruct S as (I1 & St1 & Fr1 & Pp & os & Eo & Ln & Oky & NDy & Src).
+  rewrite Eo in Pre.
+  destruct (st =? 0)%Z eqn:Z0; [unfold fail, good; simpl; auto|]. apply Z.eqb_neq in Z0.
+  rewrite <- (Pp u) in Pre. set (l := ports w1 sd u) in *.
+  apply andb_true_iff in Pre. destruct Pre as [Pre P3]. apply andb_true_iff in Pre. destruct Pre as [P1 P2].
+  apply Nat.eqb_eq in P1. apply nodupb_NoDup in P2. rewrite forallb_forall in P3.
+  set (idxs := ext_indices lo hi st (length l)) in *.
+  destruct (ext_indices_ok lo hi st (length l) Z0) as [NDi Bi]. fold idxs in NDi, Bi.
+  assert (Le : (length ys =? length idxs) = true) by (apply Nat.eqb_eq; congruence). rewrite Le. cbn [negb].
+  assert (Hu1 : u < nunits w1) by (destruct St1 as [A _ _ _ _]; lia).
+  assert (Dis : forall y, In y ys -> ~ In y l).
+  { intros y Hy HIn. destruct (Src y Hy) as [Q|(n & -> & Ln')].
+    - specialize (P3 y Q). apply negb_true_iff in P3. apply mem_false in P3. contradiction.
+    - unfold l in HIn. rewrite Pp in HIn. apply (I_ok _ _ HI) in HIn. simpl in HIn. lia. }
+  destruct (assign_spec idxs ys l NDi Bi ltac:(congruence) (I_nodup _ _ I1 u) (NDy P2) Dis) as (NDl' & Ll' & Mem).
+  set (olds := map (fun i => nth i l (M_ 0)) idxs) in *. set (l' := assign l idxs ys) in *.
+  change (fold_left (fun w x => undock w sd x) olds w1) with (undock_all w1 sd olds).
+  assert (J0 : J sd u ys (upd_ports (undock_all w1 sd olds) sd u l')).
+  { apply rewrite_J; auto.
+    - intros y Hy. apply in_map_iff in Hy. destruct Hy as (i & <- & Hi). apply nth_In. now apply Bi.
+    - intros y Hy. apply Mem in Hy. exact Hy.
+    - intros y Hy No. apply Mem. left. split; assumption.
+    - intros y Hy. split; [apply Mem; now right | now apply Oky]. }
+  set (w3 := upd_ports (undock_all w1 sd olds) sd u l') in *.
+  destruct (undock_all_misc sd olds w1) as (Po & St & Fr & Frm).
+  assert (P3' : ports w3 sd u = l') by apply ports_upd_ports_eq.
+  assert (J1 : J sd u l' w3).
+  { eapply J_weaken; [exact J0 | | intros y Hy; rewrite P3'; exact Hy]. intros y Hy. apply Mem. now right. }
+  assert (St3 : stat w1 w3) by (destruct St; constructor; auto).
+  destruct (redock_all_J sd u l' w3 J1) as (J2 & Fr2 & St2 & P2').
+  { destruct St3 as [A _ _ _ _]. lia. }
+  { intros y Hy. eapply J_ok; [exact J1|]. rewrite P3'. exact Hy. }
+  set (w4 := fold_left (fun w x => redock w sd u x) l' w3) in *.
+  assert (P4 : ports w4 sd u = l') by (etransitivity; [exact P2' | exact P3']).
+  assert (Fx : pfixed w4 sd u = true -> length l' = psize w4 sd u).
+  { intro Fx. destruct St2 as [_ _ _ S4 S5]. destruct St3 as [_ _ _ S4' S5']. rewrite S5, S5' in Fx.
+    rewrite S4, S4', Ll'. apply (I_len _ _ I1 u Fx). }
+  destruct (pfixed w4 sd u && (length l' <? psize w4 sd u)) eqn:Pad.
+  { apply andb_true_iff in Pad. destruct Pad as [F1 F2]. apply Nat.ltb_lt in F2. specialize (Fx F1). lia. }
+  unfold ok, good. simpl fst. split; [|split].
+  - eapply J_Inv; [exact J2|]. rewrite P4. exact Fx.
+  - eapply frame_trans; [exact Fr1|]. eapply frame_trans; [|exact Fr2]. eapply frame_trans; [exact Frm | apply frame_upd_ports].
+  - eapply stat_trans; [exact St1|]. eapply stat_trans; eauto.
+Qed.
+End SideX.
+
 (* ================================================================ every operation, every history *)
 Theorem step_Inv_all w o : Inv w -> wfb w o = true -> preb w o = true -> Inv (fst (step w o)).
 Proof.
   intros HI Wf Pre. destruct (proven o) eqn:E.
   - now apply step_Inv.
   - destruct o; try discriminate.
+    + (* L[lo:hi:st] = xs *) cbn [wfb preb] in Wf, Pre. apply andb_true_iff in Wf. destruct Wf as [Wu Wa].
+      apply unit_ok_lt in Wu. rewrite forallb_forall in Wa. unfold step. cbn [step_with].
+      apply (good_Good sd w _ HI). apply set_streams_step_good; auto; [apply (InvS_side sd w HI)|].
+      intros a Ha. apply in_map_iff in Ha. destruct Ha as (b & <- & Hb). apply resolve_ok; auto.
     + (* list.empty() *) cbn [wfb] in Wf. apply unit_ok_lt in Wf. unfold step. cbn [step_with].
       apply (good_Good sd w _ HI). apply empty_good; auto. apply (InvS_side sd w HI).
     + (* unit.replace_with(None) *) destruct v as [v|]; [discriminate|]. cbn [wfb preb] in Wf, Pre.
